@@ -7,12 +7,18 @@ Tie (DESIGN.md §3 C03):
       canonicalised) vs `Model.ClientMethod.addMethod`, for random variable definitions x snake
       on/off x sync/async/subscription; the finding-trigger predicates (Lean) vs their Python twins
       computed from the real emitted signature;
-    * attributes of the REAL generated input classes vs `Model.InputFields.fieldDecl`;
+    * attributes of the REAL generated input classes vs `Model.InputFields.fieldDecl`, and their class-level
+      defaults vs `Model.ArgConstruct.classDefault` for BOTH schema sources (the SDL-built schema and the
+      schema rebuilt from its introspection result: no `ast_node`);
+    * construction of input-model instances: REAL pydantic `Cls(**kw)` on the really generated classes
+      (keywords by attribute name / by alias, unknown keywords, required fields left out) vs
+      `Spec.PydInit.initModel` over `Model.ArgConstruct.classFields`;
     * CPython def/call binding vs `Spec.PyCall`;
     * graphql-core `get_variable_values` vs `Spec.Coerce.coerceVars` on sent payloads and on
       corrupted variants;
     * the whole pipeline: `variables` JSON captured at the transport of a REAL generated package
-      called with REAL Python arguments vs `Model.ArgSend.send`;
+      called with REAL Python arguments vs `Model.ArgSend.send`; packages are generated from `schema_path`
+      or from `remote_schema_url` (introspection of an in-process endpoint);
   oracle (the property itself, independent of the Lean model): generate real packages, call the
     methods with schema-valid arguments (generated input-model instances, enum members, instrumented
     scalar objects, None, omitted), capture `variables`, let graphql-core coerce them and run a
@@ -33,6 +39,7 @@ from .common import Ctx, Failure, LeanStatus, Mismatch, Result
 PROP = "C03"
 
 TRIGGERS = ["trigSelf", "trigKwargs", "trigMerge", "trigQueryClobber", "trigShadow", "trigMangled", "trigSerializeNullable", "trigSerializeList"]
+VALUE_TRIGGER = "trigDefaultLostIntro"  # C03-F9: decided on the caller's values (Model/ArgConstruct.lean), not on the signature
 
 FINGERPRINTS = [
     ("ariadne_codegen/client_generators/arguments.py", "ArgumentsGenerator.generate"),
@@ -53,6 +60,8 @@ FINGERPRINTS = [
     ("ariadne_codegen/client_generators/input_types.py", "InputTypesGenerator._process_field_value"),
     ("ariadne_codegen/client_generators/input_fields.py", "parse_input_field_type"),
     ("ariadne_codegen/client_generators/input_fields.py", "parse_input_field_default_value"),
+    ("ariadne_codegen/client_generators/input_fields.py", "parse_input_const_value_node"),
+    ("ariadne_codegen/schema.py", "get_graphql_schema_from_url"),
     ("ariadne_codegen/client_generators/scalars.py", "ScalarData"),
     ("ariadne_codegen/client_generators/scalars.py", "generate_input_scalar_annotation"),
     ("ariadne_codegen/client_generators/dependencies/base_model.py", None),
@@ -176,6 +185,25 @@ def child_direct(cases: List[Dict[str, Any]]) -> List[Dict[str, Any]]:
             rec["inputs_observer_error"] = f"{type(e).__name__}: {e}"
         except BaseException as e:  # noqa: BLE001
             rec["inputs_error"] = _classify(e)
+        # the same schema as `get_graphql_schema_from_url` builds it: from the introspection result, no ast_node anywhere
+        try:
+            from graphql import build_client_schema, introspection_from_schema
+
+            cschema = build_client_schema(introspection_from_schema(schema), assume_valid=True)
+        except BaseException as e:  # noqa: BLE001 - graphql-core cannot serve this schema to an introspection query
+            rec["inputs_intro_skipped"] = f"{type(e).__name__}: {str(e)[:120]}"
+            continue
+        try:
+            with warnings.catch_warnings():
+                warnings.simplefilter("ignore")
+                ig2 = InputTypesGenerator(schema=cschema, convert_to_snake_case=case["snake"], custom_scalars=scalars)
+            rec["inputs_intro"] = {c.name: argwire.class_ir(c) for c in ig2._class_defs}
+        except argwire.CanonError as e:
+            rec["inputs_intro_problem"] = "canon: " + str(e)
+        except (AttributeError, TypeError, ImportError) as e:
+            rec["inputs_intro_problem"] = "observer: " + f"{type(e).__name__}: {e}"
+        except BaseException as e:  # noqa: BLE001
+            rec["inputs_intro_problem"] = _classify(e)
     return out
 
 
@@ -206,6 +234,38 @@ def gen_result(rng: random.Random, case: Dict[str, Any], depth: int = 0) -> Dict
         out[p + "Deep"] = [None if rng.random() < 0.25 else [raw(s) for _ in range(rng.randint(0, 2))] for _ in range(rng.randint(0, 3))]
     out["child"] = gen_result(rng, case, depth + 1) if depth < 1 and rng.random() < 0.6 else None
     out["kids"] = [gen_result(rng, case, 2) for _ in range(rng.randint(0, 2))] if depth < 1 and rng.random() < 0.6 else None
+    if case.get("abstract") and depth == 0:
+        # opt-in (C07): values of the abstract fields (objects of a concrete member type carrying `__typename`)
+        def concrete(tname: str, d: int) -> Dict[str, Any]:
+            t = rng.choice(argwire.ABSTRACT_POSSIBLE[tname])
+            o: Dict[str, Any] = {"__typename": t, "id": "i" + str(rng.randint(0, 9))}
+            for s in argwire.result_scalars(case):
+                p = s.lower()
+                o[p + "Stamp"] = raw(s)
+                o[p + "Opt"] = None if rng.random() < 0.3 else raw(s)
+                o[p + "Items"] = None if rng.random() < 0.2 else [None if rng.random() < 0.3 else raw(s) for _ in range(rng.randint(0, 2))]
+                if t == "Cat":
+                    o[p + "Cat"] = None if rng.random() < 0.3 else raw(s)
+                if t == "Dog":
+                    o[p + "Dog"] = None if rng.random() < 0.2 else [raw(s) for _ in range(rng.randint(0, 2))]
+            if t == "Cat":
+                o["lives"] = rng.choice([9, None])
+                o["friend"] = concrete("Animal", d + 1) if d < 1 and rng.random() < 0.6 else None
+            if t == "Dog":
+                o["barks"] = rng.choice([True, False, None])
+            return o
+
+        def wrapped(t: List[Any], nn: bool = False) -> Any:
+            if t[0] == "nonnull":
+                return wrapped(t[1], True)
+            if not nn and rng.random() < 0.25:
+                return None
+            if t[0] == "list":
+                return [wrapped(t[1]) for _ in range(rng.randint(0, 3))]
+            return concrete(t[1], 0)
+
+        for f in case["abstract"]["fields"]:
+            out[f["name"]] = wrapped(f["type"])
     return out
 
 
@@ -310,6 +370,49 @@ def coerce_real(schema: Any, op_node: Any, inputs: Any) -> Dict[str, Any]:
     return {"ok": _plain(r)}
 
 
+def _introspection_endpoint(sdl: str) -> Any:
+    """context manager: every `httpx.Client` created inside talks to a spec-conformant endpoint that executes the
+    request (ariadne-codegen's introspection query) with graphql-core on `sdl`"""
+    import contextlib
+    import os
+
+    import httpx
+    from graphql import build_schema, graphql_sync
+    from httpx import _client
+
+    server_schema = build_schema(sdl)
+
+    class FakeTransport(httpx.BaseTransport):
+        def __init__(self, *args: Any, **kwargs: Any) -> None:
+            pass
+
+        def handle_request(self, request: Any) -> Any:
+            request.read()
+            body = json.loads(request.content)
+            res = graphql_sync(server_schema, body["query"], variable_values=body.get("variables"))
+            payload: Dict[str, Any] = {"data": res.data}
+            if res.errors:
+                payload["errors"] = [e.formatted for e in res.errors]
+            return httpx.Response(200, json=payload)
+
+    @contextlib.contextmanager
+    def cm() -> Any:
+        old = _client.HTTPTransport
+        saved = {k: os.environ.pop(k) for k in list(os.environ) if k.lower() in ("http_proxy", "https_proxy", "all_proxy")}
+        _client.HTTPTransport = FakeTransport  # type: ignore
+        try:
+            yield
+        finally:
+            _client.HTTPTransport = old  # type: ignore
+            os.environ.update(saved)
+
+    return cm()
+
+
+def _construct_outcome(rec: Dict[str, Any]) -> Dict[str, Any]:
+    return {k: rec[k] for k in ("cls", "spec", "keys", "set", "missing", "other_errors", "error") if k in rec}
+
+
 @engine.with_scratch
 def child_e2e(root: Path, case: Dict[str, Any]) -> Dict[str, Any]:
     """generate the REAL package, import it, call the methods with REAL Python arguments"""
@@ -327,7 +430,13 @@ def child_e2e(root: Path, case: Dict[str, Any]) -> Dict[str, Any]:
     try:
         with warnings.catch_warnings():
             warnings.simplefilter("ignore")
-            gen = engine.generate_client(root, case["sdl"], case["queries"], cfg)
+            if case.get("source", "sdl") == "intro":
+                # `remote_schema_url`: the schema is obtained by introspection of an in-process endpoint serving the SDL
+                cfg["remote_schema_url"] = "http://verif.test/graphql"
+                with _introspection_endpoint(case["sdl"]):
+                    gen = engine.generate_client(root, None, case["queries"], cfg)
+            else:
+                gen = engine.generate_client(root, case["sdl"], case["queries"], cfg)
     except BaseException as e:  # noqa: BLE001
         out["gen"] = _classify(e)
         out["message"] = str(e)[:400]
@@ -366,6 +475,8 @@ def child_e2e(root: Path, case: Dict[str, Any]) -> Dict[str, Any]:
             continue
         try:
             src = f.read_text()
+            if case.get("abstract"):  # opt-in (C07): unions / literals are canonicalised by the caller from the source
+                out.setdefault("result_sources", {})[f.stem] = src
             out["result_modules"][f.stem] = {"classes": argwire.module_classes(src), "imports": argwire.module_imports(src),
                                              "bases": argwire.module_bases(src)}
         except (argwire.CanonError, SyntaxError) as e:
@@ -392,6 +503,18 @@ def child_e2e(root: Path, case: Dict[str, Any]) -> Dict[str, Any]:
     smod = None
     if (gen.dir / (argwire.SCALAR_MODULE + ".py")).exists():
         smod = importlib.import_module(f"{gen.package}.{argwire.SCALAR_MODULE}")
+    # directed constructions of input-model instances (any subset of fields, required ones included, unknown keywords)
+    out["constructs"] = []
+    for spec in case.get("constructs", []):
+        trace2: List[Dict[str, Any]] = []
+        try:
+            argwire.build_py(spec, pkg, case, trace2)
+        except BaseException:  # noqa: BLE001 - the refusal is recorded in the trace
+            pass
+        # only the outermost constructor call of a directed construction is compared (the inner ones are valid by generation)
+        outer = [t for t in trace2 if t["spec"] is spec]
+        out["constructs"].append(_construct_outcome(outer[0]) if outer else {"cls": spec["cls"], "spec": spec, "not_reached": True,
+                                                                             "inner": [_construct_outcome(t) for t in trace2][-1:]})
     results = []
     out["calls"] = results
     for call in case.get("calls", []):
@@ -430,13 +553,15 @@ def child_e2e(root: Path, case: Dict[str, Any]) -> Dict[str, Any]:
         varmap = {k: v["py"] for k, v in m["dict"]}
         kwargs: Dict[str, Any] = {}
         build_error = None
+        trace: List[Dict[str, Any]] = []
         for d, spec in zip(defs, call["values"]):
             if isinstance(spec, dict) and spec.get("k") == "unset":
                 continue
             try:
-                kwargs[varmap.get(d["name"], d["name"])] = argwire.build_py(spec, pkg, case)
+                kwargs[varmap.get(d["name"], d["name"])] = argwire.build_py(spec, pkg, case, trace)
             except BaseException as e:  # noqa: BLE001
                 build_error = f"{d['name']}: {type(e).__name__}: {str(e)[:200]}"
+        rec["constructs"] = [_construct_outcome(t) for t in trace]
         if build_error:
             rec["outcome"] = "build-error"
             rec["message"] = build_error
@@ -556,11 +681,12 @@ def impl_sig_view(o: Dict[str, Any]) -> Dict[str, Any]:
     return {"args": ir["args"], "dict": ir["dict"], "locals": ir["locals"], "kind": ir["kind"], "opName": ir["opName"]}
 
 
-def inputclass_line(rec: Dict[str, Any], case: Dict[str, Any], tname: str) -> Dict[str, Any]:
+def inputclass_line(rec: Dict[str, Any], case: Dict[str, Any], tname: str, source: str = "sdl") -> Dict[str, Any]:
     t = [x for x in rec["ischema"]["types"] if x["name"] == tname][0]
     fields = [{"name": f["name"], "type": f["type"], "hasDefault": "default" in f, **({"default": f["default"]} if "default" in f else {})}
               for f in t["fields"]]
-    return {"op": "inputClass", "schema": rec["ischema"], "scalars": argwire.scalars_cfg_json(case), "snake": case["snake"], "fields": fields}
+    return {"op": "inputClass", "schema": rec["ischema"], "scalars": argwire.scalars_cfg_json(case), "snake": case["snake"], "fields": fields,
+            "source": source}
 
 
 def direct_cases(ctx: Ctx, n: int, label: str = "direct") -> List[Dict[str, Any]]:
@@ -609,6 +735,15 @@ def run_direct(ctx: Ctx, st: Optional[LeanStatus], res: Result, cases: List[Dict
             else:
                 why = rec.get("inputs_canon_error") or rec.get("inputs_observer_error") or rec.get("inputs_error")
                 res.mismatches.append(Mismatch("inputClass", {"sdl": case["sdl"]}, "observer: " + str(why), None))
+            if rec.get("inputs_intro") is not None:
+                for tname, decls in rec["inputs_intro"].items():
+                    lines.append(inputclass_line(rec, case, tname, "intro"))
+                    meta.append(("inputClass", {"sdl": case["sdl"], "type": tname, "snake": case["snake"], "scalars": case["scalars"],
+                                                "source": "intro"}, decls))
+            elif "inputs_intro_skipped" in rec:
+                res.count("inputClass:schema-not-introspectable (graphql-core)")
+            else:
+                res.mismatches.append(Mismatch("inputClass-introspection", {"sdl": case["sdl"]}, str(rec.get("inputs_intro_problem")), None))
     if st is None or not st.driver_ok:
         return
     model = common.run_driver(PROP, lines)
@@ -643,10 +778,13 @@ def run_direct(ctx: Ctx, st: Optional[LeanStatus], res: Result, cases: List[Dict
                 if len(res.samples) < 2 and nvars >= 2:
                     res.sample({"observation": "signature", "input": {"queries": inp["queries"], "snake": inp["snake"]}, "impl": impl, "model": mod})
         else:
-            res.seen(["inputClass", inp["sdl"], inp["type"], inp["snake"]], nontrivial=True)
+            res.seen(["inputClass", inp["sdl"], inp["type"], inp["snake"], inp.get("source", "sdl")], nontrivial=True)
             res.count("inputClass:fields", len(o))
+            res.count("inputClass:source=" + inp.get("source", "sdl"))
+            for fd in o:
+                res.count("inputClass:default:" + inp.get("source", "sdl") + ":" + str(fd.get("default")))
             if not common.same_json(o, m):
-                res.mismatches.append(Mismatch("inputClass", inp, o, m))
+                res.mismatches.append(Mismatch("inputClass" if inp.get("source", "sdl") == "sdl" else "inputClass-introspection", inp, o, m))
 
 
 def _shape(t: List[Any]) -> str:
@@ -706,6 +844,72 @@ def make_calls(rng: random.Random, case: Dict[str, Any], n_per_op: int) -> List[
             values[i] = {"k": "unset"}
             calls.append({"op": op["name"], "values": values, "seed": 1, "n_corrupt": 0, "omits_required": op["defs"][i]["name"]})
     return calls
+
+
+def is_unset(v: Any) -> bool:
+    return isinstance(v, dict) and v.get("k") == "unset"
+
+
+def lost_fields(case: Dict[str, Any], cls: str) -> List[str]:
+    """twin of Lean ArgConstruct.lostField: the fields of input type `cls` whose default the class generated from an
+    introspected schema has lost and therefore demands (non-null type with a schema default)"""
+    if case.get("source", "sdl") != "intro":
+        return []
+    return [f["name"] for f in case["inputs"].get(cls, []) if argwire.to_gt(f["type"])[2] and f.get("default") is not None]
+
+
+def py_lost(case: Dict[str, Any], spec: Any) -> bool:
+    """twin of Lean ArgConstruct.lostDefault: some instance in the value leaves such a field unset"""
+    if not isinstance(spec, dict):
+        return False
+    if spec.get("k") == "list":
+        return any(py_lost(case, x) for x in spec["xs"])
+    if spec.get("k") == "model":
+        lost = lost_fields(case, spec["cls"])
+        return any((is_unset(f["v"]) and f["name"] in lost) or py_lost(case, f["v"]) for f in spec["fields"])
+    return False
+
+
+def make_constructs(rng: random.Random, case: Dict[str, Any], n_per_class: int) -> List[Dict[str, Any]]:
+    """directed constructor calls: ANY subset of the fields is given (required ones may be left out), each under its
+    attribute name or its alias, sometimes with a keyword that names no field"""
+    out = []
+    for cls, fields in case["inputs"].items():
+        for _ in range(n_per_class):
+            fs = []
+            for f in fields:
+                if rng.random() < 0.55:
+                    v = argwire.gen_value(rng, case, argwire.to_gt(f["type"]), top=False, inherited=True, depth=2, null_p=0.25)
+                    fs.append({"name": f["name"], "v": v, "by": rng.choice(["alias", "name"])})
+                else:
+                    fs.append({"name": f["name"], "v": {"k": "unset"}})
+            spec: Dict[str, Any] = {"k": "model", "cls": cls, "fields": fs}
+            if rng.random() < 0.3:
+                spec["extra_keys"] = [rng.choice(["zz_unknown", "extra", "__x"])]
+            out.append(spec)
+    return out
+
+
+def construct_line(case: Dict[str, Any], out: Dict[str, Any], c: Dict[str, Any]) -> Dict[str, Any]:
+    """the keywords REALLY passed (`keys`, in the order of the set fields, then the unknown ones) with the values of the spec"""
+    classes = out.get("inputs") or {}
+    vals = [argwire.to_av(f["v"], classes) for f in c["spec"]["fields"] if not is_unset(f["v"])]
+    keys = list(c["keys"])
+    kw = [[k, v] for k, v in zip(keys, vals)] + [[k, {"k": "int", "v": 1}] for k in keys[len(vals):]]
+    return {"op": "construct", "schema": out["ischema"], "scalars": argwire.scalars_cfg_json(case), "snake": case["snake"],
+            "source": case.get("source", "sdl"), "cls": c["cls"], "kw": kw}
+
+
+def construct_views(c: Dict[str, Any], m: Dict[str, Any]) -> Tuple[Any, Any]:
+    if "set" in c:
+        iv: Any = {"ok": sorted(c["set"])}
+    else:
+        iv = {"error": {"missing": sorted(c.get("missing", [])), "other": c.get("other_errors", 0)}}
+    if "ok" in m:
+        mv: Any = {"ok": sorted(m["ok"]["set"])}
+    else:
+        mv = {"error": {"missing": sorted(m["error"]["missing"]), "other": len(m["error"]["invalid"])}}
+    return iv, mv
 
 
 def input_defaults(ischema: Dict[str, Any]) -> Dict[str, Dict[str, Any]]:
@@ -826,6 +1030,7 @@ def intended_line(case: Dict[str, Any], out: Dict[str, Any], call: Dict[str, Any
     line = send_line(case, out, call)
     line["op"] = "intended"
     line["schema"] = out["ischema"]
+    line["source"] = case.get("source", "sdl")
     return line
 
 
@@ -833,14 +1038,25 @@ def canon_log(log: List[Any]) -> List[Any]:
     return [[e[1], e[2]] for e in log if e[0] == "serialize"]
 
 
-def e2e_cases(ctx: Ctx, n: int, label: str, trigger_names: float = 0.05) -> List[Dict[str, Any]]:
+def e2e_cases(ctx: Ctx, n: int, label: str, trigger_names: float = 0.05, intro_p: float = 0.4) -> List[Dict[str, Any]]:
     rng = ctx.sub_rng(label)
     cases = []
     for _ in range(n):
         c = argwire.gen_case(rng, trigger_names=trigger_names, harmless_names=0.3, want_results=False)
         c["calls"] = make_calls(rng, c, 3)
+        # how the generator obtains the schema: schema_path (SDL) or remote_schema_url (introspection)
+        c["source"] = "intro" if rng.random() < intro_p else "sdl"
+        c["constructs"] = make_constructs(rng, c, 2)
         cases.append(c)
     return cases
+
+
+def case_key(case: Dict[str, Any]) -> Dict[str, Any]:
+    """the structural part of a case (what a replay needs)"""
+    k = {k: case[k] for k in ("snake", "async", "enums", "scalars", "inputs", "ops")}
+    if case.get("source", "sdl") != "sdl":
+        k["source"] = case["source"]
+    return k
 
 
 def judge_e2e(ctx: Ctx, st: Optional[LeanStatus], res: Result, cases: List[Dict[str, Any]], outs: List[Tuple[str, Any]],
@@ -851,7 +1067,7 @@ def judge_e2e(ctx: Ctx, st: Optional[LeanStatus], res: Result, cases: List[Dict[
     per_case: Dict[int, List[Failure]] = {}
     for ci, (case, (status, out)) in enumerate(zip(cases, outs)):
         per_case[ci] = []
-        inp_case = {k: case[k] for k in ("snake", "async", "enums", "scalars", "inputs", "ops")}
+        inp_case = case_key(case)
         if status != "ok":
             raise common.Infra(f"e2e child failed: {status} {str(out)[:400]}")
         if out.get("gen") != "ok":
@@ -871,16 +1087,43 @@ def judge_e2e(ctx: Ctx, st: Optional[LeanStatus], res: Result, cases: List[Dict[
                         out.get("import", ""))
             per_case[ci].append(f)
             continue
+        res.count("e2e:source=" + case.get("source", "sdl"))
+        if out.get("inputs") is not None:
+            for c in out.get("constructs", []):
+                if c.get("not_reached"):
+                    # an INNER value of a directed construction could not be built although it is valid by generation
+                    inner = (c.get("inner") or [{}])[-1]
+                    lostc = lost_fields(case, inner.get("cls", ""))
+                    inside = bool(inner.get("missing")) and set(inner.get("missing", [])) <= set(lostc)
+                    per_case[ci].append(Failure("input-model-refuses-valid-value", VALUE_TRIGGER if inside else None,
+                                                {"case": inp_case, "constructs": [c["spec"]]}, str(inner.get("error"))))
+                    continue
+                lines.append(construct_line(case, out, c))
+                meta.append(("construct", (ci, c, "directed"), None))
         for call, rec in zip(case.get("calls", []), out.get("calls", [])):
             ir = methods.get(call["op"])
             res.count("e2e:outcome:" + rec["outcome"])
+            if out.get("inputs") is not None:
+                for c in rec.get("constructs", []):
+                    lines.append(construct_line(case, out, c))
+                    meta.append(("construct", (ci, c, "call"), None))
             for d, v in zip(out["defs"][call["op"]], call["values"]):
                 res.count("e2e:arg:" + ("omitted" if isinstance(v, dict) and v.get("k") == "unset" else "None" if v is None else v["k"]))
             nontrivial = len(call["values"]) > 0
             res.seen([inp_case, call["op"], call["values"]], nontrivial=nontrivial)
             if rec["outcome"] == "build-error":
-                # the harness could not construct a value it believes schema-valid: the generated class refused it
-                per_case[ci].append(Failure("input-model-refuses-valid-value", None, {"case": inp_case, "calls": [call]}, rec.get("message", "")))
+                # the harness could not construct a value it believes schema-valid: the generated class refused it.
+                # Known region (C03-F9): the schema came by introspection and ALL the class misses are non-null fields
+                # whose schema default the class has lost.
+                bad = [c for c in rec.get("constructs", []) if "set" not in c]
+                inside = bool(bad) and all(c.get("missing") and not c.get("other_errors")
+                                           and set(c["missing"]) <= set(lost_fields(case, c["cls"])) for c in bad)
+                per_case[ci].append(Failure("input-model-refuses-valid-value", VALUE_TRIGGER if inside else None,
+                                            {"case": inp_case, "calls": [call]}, rec.get("message", "")))
+                res.count("e2e:call-inside-trigger" if inside else "e2e:call-refused-outside-triggers")
+                if ir is not None and out.get("inputs") is not None:
+                    lines.append(intended_line(case, out, call))
+                    meta.append(("intended", (ci, call, rec, [VALUE_TRIGGER] if inside else []), None))
                 continue
             fails = judge_call(case, out, call, rec)
             for sig, var, detail in fails:
@@ -911,7 +1154,7 @@ def judge_e2e(ctx: Ctx, st: Optional[LeanStatus], res: Result, cases: List[Dict[
                 ci, call, rec, inside = info
                 case = cases[ci]
                 trig = inside[0] if inside else None
-                inp = {"case": {k: case[k] for k in ("snake", "async", "enums", "scalars", "inputs", "ops")}, "calls": [call]}
+                inp = {"case": case_key(case), "calls": [call]}
                 if "ok" in m:
                     mv = {"variables": wire.dec(m["ok"]["variables"]), "calls": m["ok"]["calls"]}
                     if "sent" not in rec:
@@ -927,9 +1170,35 @@ def judge_e2e(ctx: Ctx, st: Optional[LeanStatus], res: Result, cases: List[Dict[
                     if "sent" in rec or (want is not None and rec.get("exception") != want):
                         res.mismatches.append(Mismatch("send", inp, {"sent": rec.get("sent"), "exception": rec.get("exception")}, m, trig))
                     res.count("send:model-error:" + str(m.get("error")))
+            elif kind == "construct":
+                ci, c, origin = info
+                case = cases[ci]
+                iv, mv = construct_views(c, m)
+                res.seen(["construct", case_key(case), c["cls"], c["keys"], origin], nontrivial=bool(c["keys"]))
+                res.count("construct:" + case.get("source", "sdl") + ":" + ("ok" if "ok" in iv else "refused"))
+                if any(k not in [f["name"] for f in case["inputs"].get(c["cls"], [])] for k in c["keys"]):
+                    res.count("construct:keyword-by-attribute-name-or-unknown")
+                if not common.same_json(iv, mv):
+                    res.mismatches.append(Mismatch("construct", {"case": case_key(case), "constructs": [c["spec"]], "keys": c["keys"]}, iv, mv))
             elif kind == "intended":
                 ci, call, rec, inside = info
                 case = cases[ci]
+                lost = any(py_lost(case, v) for v in call["values"])
+                if bool(m.get("lost")) != lost:
+                    res.mismatches.append(Mismatch("triggers-value", {"case": case_key(case), "calls": [call]}, {VALUE_TRIGGER: lost},
+                                                   {VALUE_TRIGGER: m.get("lost")}))
+                if lost:
+                    res.count("e2e:inside:" + VALUE_TRIGGER)
+                if rec.get("outcome") == "build-error":
+                    # model and implementation must agree that the value does not exist: refused <-> inside the trigger
+                    if lost != (VALUE_TRIGGER in inside):
+                        res.mismatches.append(Mismatch("constructible", {"case": case_key(case), "calls": [call]},
+                                                       {"refused": True, "message": rec.get("message")}, {VALUE_TRIGGER: m.get("lost")}))
+                    continue
+                if lost:
+                    # the model says this value cannot be built, the implementation built it
+                    res.mismatches.append(Mismatch("constructible", {"case": case_key(case), "calls": [call]}, {"refused": False},
+                                                   {VALUE_TRIGGER: True}, VALUE_TRIGGER))
                 if call.get("omits_required"):
                     if m["valid"]:
                         res.mismatches.append(Mismatch("hasType", {"calls": [call]}, "a required variable is omitted", m))
@@ -939,7 +1208,7 @@ def judge_e2e(ctx: Ctx, st: Optional[LeanStatus], res: Result, cases: List[Dict[
                 mi = wire.dec(m["intended"])
                 mexp = {f"a{i}": mi[d["name"]] for i, d in enumerate(defs) if d["name"] in mi}
                 if not m["valid"] or not common.same_json(exp, mexp):
-                    res.mismatches.append(Mismatch("intended", {"case": {k: case[k] for k in ("snake", "scalars", "inputs", "ops")}, "calls": [call]},
+                    res.mismatches.append(Mismatch("intended", {"case": case_key(case), "calls": [call]},
                                                    {"valid": True, "intended": exp}, {"valid": m["valid"], "intended": mexp}))
             else:
                 ci, call, item = info
@@ -986,6 +1255,7 @@ def replay_witnesses(ctx: Ctx, st: Optional[LeanStatus], res: Result) -> None:
         c.setdefault("want_results", False)
         argwire.finish_case(c)
         c["calls"] = payload.get("calls", [])
+        c["constructs"] = payload.get("constructs", [])
         cases.append(c)
     outs = engine.pmap_forked(child_e2e, [(c,) for c in cases], timeout=240)
     sub = Result()
@@ -1019,7 +1289,9 @@ def replay_witnesses(ctx: Ctx, st: Optional[LeanStatus], res: Result) -> None:
 def run(ctx: Ctx, st: Optional[LeanStatus]) -> Result:
     res = Result()
     res.rule = ("direct: one evaluation = one (operation, variant) pushed through the real ArgumentsGenerator/add_method and the model, "
-                "non-trivial when it declares at least one variable; e2e: one evaluation = one call of a real generated method, "
+                "non-trivial when it declares at least one variable, or one input class (per schema source) compared attribute by attribute; "
+                "construct: one evaluation = one constructor call of a really generated input class, non-trivial when it passes a keyword; "
+                "e2e: one evaluation = one call of a real generated method (package generated from schema_path or remote_schema_url), "
                 "non-trivial when it passes at least one argument; coerce: one evaluation = one variables object (sent or corrupted) "
                 "given to graphql-core and to Spec.Coerce; distinct = distinct canonical inputs")
     res.extra["fingerprints"] = common.fingerprints(ctx, FINGERPRINTS)
@@ -1038,6 +1310,9 @@ def run(ctx: Ctx, st: Optional[LeanStatus]) -> Result:
     ]
     res.assumptions += [
         "input-model instances are constructed through the generated classes; a value the class refuses (None item in a `[T]!` field: C06-F1 region) is outside 'schema-valid Python arguments' and is not generated",
+        "no generated input type has two fields that share a Python name or alias (fooBar/foo_bar, _x/x, class/class_: the region of C18-F1..F5, F7 = C06-F7; "
+        "Proved_03 of the constructibility theorems); the construct observation passes valid values only (lax/strict leaf validation is C06's subject)",
+        "the introspection source is served by graphql-core on the same SDL (no deprecated input fields are generated; default values are the ones graphql-core prints)",
         "GraphQL names that do not map to Python identifiers (C18-F4: `$_1` with snake-casing) make generation itself fail (C04/C18); such operations have no method and are not generated here",
         "enum internal values are the enum value names (schemas built from SDL)",
     ]
@@ -1059,11 +1334,15 @@ def replay(ctx: Ctx, payload: Dict[str, Any]) -> int:
     c.setdefault("want_results", False)
     argwire.finish_case(c)
     c["calls"] = inp.get("calls", [])
+    c["constructs"] = inp.get("constructs", [])
     outs = engine.pmap_forked(child_e2e, [(c,)], timeout=240)
     res = Result()
     per_case = judge_e2e(ctx, None, res, [c], outs)
     out = outs[0][1] if outs[0][0] == "ok" else {}
-    print("generation:", out.get("gen"), "import:", out.get("import"))
+    print("schema source:", c.get("source", "sdl"), "generation:", out.get("gen"), "import:", out.get("import"))
+    for cons in out.get("constructs", []) if isinstance(out, dict) else []:
+        print("construct", cons.get("cls"), "keys", cons.get("keys"), "->", "set " + json.dumps(cons.get("set")) if "set" in cons
+              else "refused " + json.dumps({k: cons.get(k) for k in ("missing", "other_errors", "inner") if k in cons})[:300])
     for call, rec in zip(c["calls"], out.get("calls", []) if isinstance(out, dict) else []):
         print("call", call["op"], json.dumps(call["values"])[:300])
         print("  ->", rec.get("outcome"), rec.get("exception", ""), "sent", json.dumps(rec.get("sent"))[:300], "received", json.dumps(rec.get("received"))[:300])
